@@ -50,4 +50,54 @@ theorem box_in : BoxIn m0 box :=
 
 def pw0 : List PadW := [⟨"x", 1, 2⟩, ⟨"y", 0, 1⟩]
 
+/-- every subregion of `m1` consists of whole cells -/
+theorem m1_subs_aligned : ∀ p, p ∈ m1.subs → ∃ k1 k2, SubAligned m1 p.2 k1 k2 := by
+  intro p hp
+  have : p = ("a", s0) := by simpa [m1] using hp
+  subst this
+  exact ⟨k1, k2, s0_aligned⟩
+
+/-- a 1-d field: 4 cells of size 1 over `[0, 4]` -/
+def reg1 (p1 p2 : List Rat) : Region :=
+  { pmin := p1, pmax := p2, dims := ["x"], units := ["m"], tol := 1/1000000000000 }
+def m2 : Mesh := { region := reg1 [0] [4], n := [4], bc := "", subs := [] }
+def f2 : Fld := { mesh := m2, nvdim := 1, data := ⟨[4], tok⟩, valid := ⟨[4], msk⟩,
+                  vdims := none, vmap := [], unit := none }
+
+theorem m2_inv : m2.Inv :=
+  ⟨⟨by decide, rfl, rfl, rfl, by decide, fun a ha => by
+      have : a = 0 := by have : a < 1 := ha; omega
+      subst this; decide⟩,
+    rfl, fun a ha => by
+      have : a = 0 := by have : a < 1 := ha; omega
+      subst this; decide⟩
+
+/-- a 3-d field: 2 × 2 × 2 cells of size 1 over `[0, 2]³` -/
+def reg3 (p1 p2 : List Rat) : Region :=
+  { pmin := p1, pmax := p2, dims := ["x", "y", "z"], units := ["m", "m", "m"], tol := 1/1000000000000 }
+def m3 : Mesh := { region := reg3 [0, 0, 0] [2, 2, 2], n := [2, 2, 2], bc := "", subs := [] }
+def tok3 (i : List Nat) : List Rat := [((i.getD 0 0 * 100 + i.getD 1 0 * 10 + i.getD 2 0 : Nat) : Rat)]
+def f3 : Fld := { mesh := m3, nvdim := 1, data := ⟨[2, 2, 2], tok3⟩, valid := ⟨[2, 2, 2], msk⟩,
+                  vdims := none, vmap := [], unit := none }
+
+theorem lt_three (a : Nat) (h : a < 3) : a = 0 ∨ a = 1 ∨ a = 2 := by omega
+
+theorem m3_inv : m3.Inv :=
+  ⟨⟨by decide, rfl, rfl, rfl, by decide, fun a ha => by
+      rcases lt_three a ha with rfl | rfl | rfl <;> decide⟩,
+    rfl, fun a ha => by rcases lt_three a ha with rfl | rfl | rfl <;> decide⟩
+
+theorem f3_wf : FldWF f3 := ⟨m3_inv, rfl, rfl⟩
+
+/-- the state `field.vdims = []` leaves behind on a labelled 3-component field: no labels, the
+mapping still keyed by the old labels -/
+def fstale : Fld := { f0 with nvdim := 3, vmap := [("a", "x"), ("b", "y"), ("c", "z")] }
+
+theorem ex_idx (x : Rat) (k : Nat) (hk : k < 4) (h1 : (k : Rat) ≤ x) (h2 : x < (k : Rat) + 1) :
+    f0.mesh.indexAx 0 x = k :=
+  indexAx_eq_of_bounds f0.mesh 0 x k (by show k < 4; exact hk) (inv_cell_pos f0_wf.1 (by decide))
+    (by norm_num [f0, m0, reg, Region.lo, Mesh.cellAt, Mesh.nAt, Region.edge, Region.hi]; exact h1)
+    (by norm_num [f0, m0, reg, Region.lo, Mesh.cellAt, Mesh.nAt, Region.edge, Region.hi]; exact h2)
+
+
 end DFV.C07.Ex
